@@ -22,6 +22,30 @@ import posixpath
 os_strerror = os.strerror
 
 
+class SimStat(object):
+    """what os.stat returns, for a simulated file"""
+    __slots__ = ('st_mode', 'st_ino', 'st_size', 'st_mtime')
+    st_dev = 64
+    st_nlink = 1
+    st_uid = st_gid = 0
+
+    def __init__(self, mode, ino, size, mtime):
+        self.st_mode, self.st_ino, self.st_size, self.st_mtime = mode, ino, size, mtime
+
+    st_atime = st_ctime = property(lambda self: self.st_mtime)
+    st_mtime_ns = st_atime_ns = st_ctime_ns = property(lambda self: int(round(self.st_mtime * 1e9)))
+
+    def __iter__(self):
+        return iter((self.st_mode, self.st_ino, self.st_dev, self.st_nlink, self.st_uid, self.st_gid, self.st_size,
+                     int(self.st_mtime), int(self.st_mtime), int(self.st_mtime)))
+
+    def __getitem__(self, i):
+        return tuple(self)[i]
+
+    def __repr__(self):
+        return 'SimStat(mode=%o, ino=%d, size=%d, mtime=%r)' % (self.st_mode, self.st_ino, self.st_size, self.st_mtime)
+
+
 class SimCrash(BaseException):
     """The simulated process died inside a write (only durable bytes survive)."""
 
@@ -191,6 +215,8 @@ class _Handle(object):
             d.extend(b'\0' * (self.pos - len(d)))
         d[self.pos:self.pos + len(b)] = b
         fs._rec(self, 'write', self.pos, len(b))
+        if b:
+            fs.mtime[self.path] = float(fs.now())
         self.pos += len(b)
         fs.written[self.path] = fs.written.get(self.path, 0) + len(b)
         return len(s)
@@ -222,6 +248,17 @@ class SimFS(object):
         self.crash_keep = None
         self.crashed = False
         self.fired = {}
+        self.mtime = {}          # abs path -> simulated modification time (seconds, float)
+        self.ino = {}            # abs path -> inode number (new file = new number)
+        self._next_ino = 1000
+        self.now = lambda: 0.0   # simulated clock for time stamps (never advances it)
+        self.stat_calls = 0
+
+    def _touch(self, path, new_file=False):
+        self.mtime[path] = float(self.now())
+        if new_file or path not in self.ino:
+            self._next_ino += 1
+            self.ino[path] = self._next_ino
 
     # -- paths -----------------------------------------------------------
     def abspath(self, p):
@@ -244,13 +281,17 @@ class SimFS(object):
             if path not in self.files:
                 raise FileNotFoundError(errno.ENOENT, 'No such file or directory (simfs)', str(file))
         elif 'w' in m:
+            self._touch(path, new_file=path not in self.files)
             self.files[path] = bytearray()
             self.written[path] = 0
         elif 'a' in m:
+            if path not in self.files:
+                self._touch(path, new_file=True)
             self.files.setdefault(path, bytearray())
         elif 'x' in m:
             if path in self.files:
                 raise FileExistsError(errno.EEXIST, 'File exists (simfs)', str(file))
+            self._touch(path, new_file=True)
             self.files[path] = bytearray()
         else:
             raise ValueError('invalid mode: %r' % mode)
@@ -262,8 +303,12 @@ class SimFS(object):
         return h
 
     # -- harness-side operations ------------------------------------------
-    def put(self, path, data):
-        self.files[self.abspath(path)] = bytearray(data)
+    def put(self, path, data, in_place=False, mtime=None):
+        p = self.abspath(path)
+        self._touch(p, new_file=not in_place)
+        if mtime is not None:
+            self.mtime[p] = mtime            # a copy that preserves time stamps (cp -p, rsync -t), or a coarse clock
+        self.files[p] = bytearray(data)
 
     def get(self, path):
         return bytes(self.files[self.abspath(path)])
@@ -272,10 +317,112 @@ class SimFS(object):
         return self.abspath(path) in self.files
 
     def rename(self, a, b):
-        self.files[self.abspath(b)] = self.files.pop(self.abspath(a))
+        a, b = self.abspath(a), self.abspath(b)
+        self.files[b] = self.files.pop(a)
+        if a in self.mtime:
+            self.mtime[b] = self.mtime.pop(a)
+        if a in self.ino:
+            self.ino[b] = self.ino.pop(a)
 
     def remove(self, path):
-        self.files.pop(self.abspath(path), None)
+        p = self.abspath(path)
+        self.files.pop(p, None)
+        self.mtime.pop(p, None)
+        self.ino.pop(p, None)
+
+    # -- os-level seam: what a module under test may ask the operating system about a path ------------
+    def isdir(self, path):
+        p = self.abspath(path)
+        return p == '/' or any(f.startswith(p.rstrip('/') + '/') for f in self.files) or p == posixpath.normpath(self.cwd)
+
+    def stat(self, path, *a, **k):
+        p = self.abspath(path)
+        self.stat_calls += 1
+        if p in self.files:
+            return SimStat(0o100644, self.ino.get(p, 1), len(self.files[p]), self.mtime.get(p, 0.0))
+        if self.isdir(p):
+            return SimStat(0o040755, 2, 4096, 0.0)
+        raise FileNotFoundError(errno.ENOENT, 'No such file or directory (simfs)', str(path))
+
+    def listdir(self, path='.'):
+        p = self.abspath(path).rstrip('/') + '/'
+        if not self.isdir(path):
+            raise FileNotFoundError(errno.ENOENT, 'No such file or directory (simfs)', str(path))
+        return sorted(set(f[len(p):].split('/')[0] for f in self.files if f.startswith(p)))
+
+    def os_remove(self, path, *a, **k):
+        p = self.abspath(path)
+        if p not in self.files:
+            raise FileNotFoundError(errno.ENOENT, 'No such file or directory (simfs)', str(path))
+        self.remove(p)
+
+    def os_rename(self, a, b, *x, **k):
+        if self.abspath(a) not in self.files:
+            raise FileNotFoundError(errno.ENOENT, 'No such file or directory (simfs)', str(a))
+        self.rename(a, b)
+
+    def os_proxy(self):
+        """a stand-in for the `os` module: path queries and file management go to the simulated disk,
+        everything else to the real module"""
+        import types
+        fs = self
+
+        class _Proxy(types.ModuleType):
+            def __init__(self, name, real):
+                types.ModuleType.__init__(self, name)
+                self.__dict__['_real'] = real
+
+            def __getattr__(self, name):
+                return getattr(self.__dict__['_real'], name)
+
+        def _exists(p):
+            try:
+                fs.stat(p)
+                return True
+            except (OSError, ValueError):
+                return False
+        pth = _Proxy('posixpath', os.path)
+        pth.exists = pth.lexists = _exists
+        pth.isfile = lambda p: fs.abspath(p) in fs.files
+        pth.isdir = lambda p: fs.abspath(p) not in fs.files and fs.isdir(p)
+        pth.getsize = lambda p: fs.stat(p).st_size
+        pth.getmtime = pth.getctime = pth.getatime = lambda p: fs.stat(p).st_mtime
+        pth.abspath = pth.realpath = lambda p, **k: fs.abspath(os.fspath(p))
+        pth.samefile = lambda a, b: fs.abspath(a) == fs.abspath(b)
+        o = _Proxy('os', os)
+        o.path = pth
+        o.stat = o.lstat = fs.stat
+        o.getcwd = lambda: fs.cwd
+        o.listdir = fs.listdir
+        o.remove = o.unlink = fs.os_remove
+        o.rename = o.replace = fs.os_rename
+        o.makedirs = o.mkdir = lambda *a, **k: None
+        o.access = lambda p, mode=0, **k: _exists(p)
+        return o
+
+    def install_os_seam(self, module):
+        """Rebind every module-level name of `module` that refers to the real `os` / `os.path` modules or
+        to one of their path functions to the simulated equivalent.  Returns name -> original."""
+        prox = self.os_proxy()
+        table = {}
+        for nm in ('stat', 'lstat', 'getcwd', 'listdir', 'remove', 'unlink', 'rename', 'replace', 'makedirs',
+                   'mkdir', 'access'):
+            table[id(getattr(os, nm))] = getattr(prox, nm)
+        for nm in ('exists', 'lexists', 'isfile', 'isdir', 'getsize', 'getmtime', 'getctime', 'getatime',
+                   'abspath', 'realpath', 'samefile'):
+            table[id(getattr(os.path, nm))] = getattr(prox.path, nm)
+        saved = {}
+        for name, val in list(vars(module).items()):
+            if val is os:
+                saved[name] = val
+                setattr(module, name, prox)
+            elif val is os.path:
+                saved[name] = val
+                setattr(module, name, prox.path)
+            elif callable(val) and id(val) in table and getattr(val, '__module__', None) in ('os', 'posix', 'posixpath', 'genericpath'):
+                saved[name] = val
+                setattr(module, name, table[id(val)])
+        return saved
 
     def flip(self, path, offset, mask):
         d = self.files[self.abspath(path)]
